@@ -78,6 +78,13 @@ def run(chk, replay=None):
         if rc:
             chk.tie_break("gcc could not compile the corpus", out[-500:])
             return chk.finish(TRUSTED)
+        # a non-PIC executable that reads data of a shared object directly: copy relocations
+        open(f"{d}/dv.c", "w").write("".join(f"int dv{i} = {i + 1}; long dl{i} = {i};\n" for i in range(8)))
+        open(f"{d}/np.c", "w").write("#include <stdio.h>\n" + "".join(f"extern int dv{i}; extern long dl{i};\n" for i in range(8)) +
+                                    "int main(void) { fprintf(stderr, \"\"); printf(\"%ld\\n\", " + " + ".join(f"dv{i} + dl{i}" for i in range(8)) + "); return 0; }\n")
+        rc, out = sh(f"cd {d} && gcc -O1 -fPIC -c dv.c -o dv.o && gcc -O1 -fno-pic -fno-pie -c np.c -o np.o && {wild} -shared dv.o -o libdv.so", timeout=120)
+        if rc:
+            chk.tie_break("cannot build the copy-relocation corpus", out[-400:])
         gccdir = sh("dirname $(gcc -print-libgcc-file-name)")[1].strip()
         lib = "/usr/lib/x86_64-linux-gnu"
         objs = [f"{n[:-2]}.o" for n in CSRC if n != "h.c"]
@@ -89,9 +96,11 @@ def run(chk, replay=None):
             ("c-static", ["-static", f"{lib}/crt1.o", f"{lib}/crti.o", f"{gccdir}/crtbeginT.o", "h.o"] + objs +
              ["--start-group", f"{lib}/libc.a", f"{gccdir}/libgcc.a", f"{gccdir}/libgcc_eh.a", "--end-group", f"{gccdir}/crtend.o", f"{lib}/crtn.o", "--build-id=fast"]),
             ("c-relocatable", objs + ["-r"]),
+            ("c-nopie-copyrel", ["-dynamic-linker", "/lib64/ld-linux-x86-64.so.2", f"{lib}/crt1.o", f"{lib}/crti.o", f"{gccdir}/crtbegin.o", "np.o", "libdv.so",
+                                 f"{lib}/libc.so.6", f"{gccdir}/libgcc.a", f"{gccdir}/crtend.o", f"{lib}/crtn.o", "--build-id=fast"]),
         ]
         if chk.tier == "quick":
-            cases = [cases[0], cases[2], cases[3], cases[4]]
+            cases = [cases[0], cases[2], cases[3], cases[4], cases[5]]
         # generated assembly programs (the C04 generator), with mergeable strings added
         gens = []
         for gi in range(4 if chk.tier == "quick" else 30):
